@@ -146,7 +146,9 @@ def run(ctx):
                   "original": P["orig"], "after": beh(r) if "outcome" in r else r.get("parse_errors", [{}])[0].get("message")}
         if "outcome" in r and r["outcome"].get("message"):
             detail["after_message"] = r["outcome"]["message"]
-        ctx.violation(f"{cls}: {d}", detail, cli_cmd=cli(tool, s))
+        ut = refgen.unbound_type(d)
+        sig = f"{tool}: the emitted function signature mentions the non-existent type `{ut}`" if ut else f"{cls}: {d}"
+        ctx.violation(sig, detail, cli_cmd=cli(tool, s))
         ctx.outcome(f"{tool}:{d.split(' (')[0]}")
     # CLI confirmation (up to 12 violations)
     for sig, v in list(ctx.violations.items())[:12]:
